@@ -312,8 +312,8 @@ def run(r):
     core.coq_make(["theories/Check/C18.vo"])
     rnd = random.Random(r.seed * 31 + 18)
     listed = runner.listed_classes(PID, CLASS_BITS)
-    n1 = int(os.environ.get("VERIF_CASES", 60 if quick else 1500))
-    n2 = int(os.environ.get("VERIF_WORKSPACES", 8 if quick else 120))
+    n1 = int(os.environ.get("VERIF_CASES", 150 if quick else 1500))
+    n2 = int(os.environ.get("VERIF_WORKSPACES", 16 if quick else 120))
     info1, codes1 = part1(r, rnd, n1, load_corpus())
     hits = collections.Counter()
     prop_bad, corr_bad = [], []
